@@ -11,10 +11,21 @@ Items == {T(<<97>>), T(<<32>>), T(<<98, 32>>), [k |-> "nl", s |-> <<>>, n |-> 2,
          \cup {[k |-> "pop", s |-> <<>>, n |-> 0, tok |-> t] : t \in 0..3}
 Style == [t \in 1..3 |-> t]
 
-VARIABLE st
-Init == st \in {s \in UNION {[1..n -> Items] : n \in 0..MaxLen} : WellNested(s, 1, <<>>) /\ Depth(s, 1, 0, 0) <= 3}
-Next == FALSE /\ UNCHANGED st
+\* The streams are built item by item (the set of all functions 1..MaxLen -> Items is too large to filter):
+\* every prefix that is well nested so far, nesting depth <= 3; the refinement is checked on the complete ones.
+VARIABLES st, stack
+Init == st = <<>> /\ stack = <<>>
+Next == /\ Len(st) < MaxLen
+        /\ \E it \in Items :
+             /\ (it.k = "push") => Len(stack) < 3
+             /\ (it.k = "pop") => (Len(stack) > 0 /\ stack[Len(stack)] = it.tok)
+             /\ st' = Append(st, it)
+             /\ stack' = CASE it.k = "push" -> Append(stack, it.tok)
+                           [] it.k = "pop" -> SubSeq(stack, 1, Len(stack) - 1)
+                           [] OTHER -> stack
 
-Refines == /\ ImplChars(st, Style) = SpecChars(st, Style)
-           /\ ImplFinal(st, Style) = SpecFinal
+Complete == Len(stack) = 0
+Refines == Complete => /\ WellNested(st, 1, <<>>)
+                       /\ ImplChars(st, Style) = SpecChars(st, Style)
+                       /\ ImplFinal(st, Style) = SpecFinal
 =============================================================================
